@@ -690,6 +690,12 @@ func (c *checker) partValidation(s *structSpec, envNames map[string][]string, th
 					c.run.detailed = want
 					out := c.eval(s, sc, req&zp != 0)
 					c.run.detailed = false
+					if req&zp != 0 && zm == 0 && del == srcDef {
+						// the same case with Validate methods that report the missing field themselves
+						sc2 := *sc
+						sc2.ValidatorStyle = "library-error"
+						c.eval(s, &sc2, true)
+					}
 					if want {
 						sampled = true
 						c.samples = append(c.samples, map[string]any{"part": "validation", "struct": s.Name, "required": maskNames(s, req), "zero": maskNames(s, zp), "error": out.ErrText, "details": out.Details})
